@@ -1,6 +1,11 @@
 use std::any::Any;
 use std::fmt;
+#[cfg(not(may_verif))]
 use std::sync::atomic::{AtomicBool, Ordering};
+#[cfg(may_verif)]
+use crate::verif::atomic::AtomicBool;
+#[cfg(may_verif)]
+use std::sync::atomic::Ordering;
 use std::sync::Arc;
 use std::thread::Result;
 
